@@ -6,6 +6,7 @@ import Casket.Proofs.AutoHTTPSInspect
 import Casket.Proofs.AutoHTTPSAddrIP
 import Casket.Proofs.AutoHTTPSSame
 import Casket.Proofs.AutoHTTPSAddr6
+import Casket.Proofs.AutoHTTPSAddrP
 /-
 C15 — Automatic HTTPS is applied exactly to qualifying sites, with redirects.
 
@@ -18,10 +19,11 @@ namespace Casket.Props.C15
 open Casket.AutoHTTPS Casket.AutoHTTPSSpec Casket.Generated
 
 /-- The tables and constants regenerated from casket.go, caskettls/tls.go, plugin.go and certmagic are the ones the
-specification is written with: ports 80/443/2015, `localhost`/`.localhost`, the private TLDs, certmagic's internal
-suffixes and forbidden characters, e-mail `off`.  (`decide` over the complete regenerated tables.) -/
+specification is written with: default ports 80/443/2015, `localhost`/`.localhost`, the private TLDs, certmagic's internal
+suffixes and forbidden characters, e-mail `off`; and QualifiesForManagedTLS compares the site port with the CONFIGURED
+HTTP port.  (`decide` over the complete regenerated tables.) -/
 theorem C15_tables_match_spec :
-    httpPort = b!"80" ∧ httpsPort = b!"443" ∧ unmanagedPort = b!"80" ∧ unmanagedEmail = b!"off" ∧ defaultPort = b!"2015" ∧
+    httpPort = b!"80" ∧ httpsPort = b!"443" ∧ qualifiesComparesConfiguredHTTPPort = true ∧ unmanagedEmail = b!"off" ∧ defaultPort = b!"2015" ∧
     loopbackName = b!"localhost" ∧ loopbackSuffix = b!".localhost" ∧
     privateTLDs = [b!".example", b!".invalid", b!".test", b!".local"] ∧
     certInternalNames = [b!"localhost"] ∧ certInternalSuffixes = [b!".localhost", b!".local", b!".home.arpa"] ∧
@@ -68,109 +70,116 @@ theorem C15_local_host_iff (l : Bytes) (h1 : splitHostPort l = none) (h2 : split
 example : splitHostPort b!"::ffff:127.0.0.1" = none ∧ localHost b!"::ffff:127.0.0.1" = true ∧ localHost b!"LOCALHOST" = true ∧
     localHost b!"[fd00::1]" = true ∧ localHost b!"203.0.113.7" = false ∧ localHost b!"" = false := by decide
 
-/-- MANAGED ⇔ QUALIFIES.  markQualifiedForAutoHTTPS marks a site exactly when the specification says it qualifies:
-public DNS name (or, with on-demand TLS, any non-local name), not bound to a local interface, not declared with
-http:// or port 80, tls not off / e-mail off / manual / self-signed — for all schemes, hosts in scope, ports,
-bind values in scope and tls flag combinations. -/
-theorem C15_managed_iff_qualifies (c : Site) (hh : hostInScope c.host = true) (hb : bindInScope c.listen = true)
-    (hm : c.managed = false) : (markOne c).managed = AutoHTTPSSpec.qualifies c := by
-  unfold markOne
-  rw [qualifies_eq_spec c hh hb]
-  cases h : AutoHTTPSSpec.qualifies c <;> simp [hm]
+/-- MANAGED ⇔ QUALIFIES, for every pair of configured ports.  markQualifiedForAutoHTTPS marks a site exactly when the
+specification says it qualifies: public DNS name (or, with on-demand TLS, any non-local name), not bound to a local interface,
+not declared with http:// or on the HTTP port (the configured one), tls not off / e-mail off / manual / self-signed — for all
+schemes, hosts in scope, ports, bind values in scope and tls flag combinations. -/
+theorem C15_managed_iff_qualifies (P : Ports) (c : Site) (hh : hostInScope c.host = true) (hb : bindInScope c.listen = true)
+    (hm : c.managed = false) : (markOneP P c).managed = AutoHTTPSSpec.qualifies P c := by
+  unfold markOneP
+  rw [qualifies_eq_spec P c hh hb]
+  cases h : AutoHTTPSSpec.qualifies P c <;> simp [hm]
 
-example : hostInScope b!"example.com" = true ∧ bindInScope b!"" = true ∧ AutoHTTPSSpec.qualifies { host := b!"example.com" } = true ∧
-    AutoHTTPSSpec.qualifies { host := b!"example.com", scheme := b!"http", port := b!"80" } = false ∧
-    AutoHTTPSSpec.qualifies { host := b!"example.com", listen := b!"127.0.0.1" } = false := by decide
+example : hostInScope b!"example.com" = true ∧ bindInScope b!"" = true ∧ AutoHTTPSSpec.qualifies Ports.std { host := b!"example.com" } = true ∧
+    AutoHTTPSSpec.qualifies Ports.std { host := b!"example.com", scheme := b!"http", port := b!"80" } = false ∧
+    AutoHTTPSSpec.qualifies Ports.std { host := b!"example.com", listen := b!"127.0.0.1" } = false ∧
+    AutoHTTPSSpec.qualifies ⟨b!"8080", b!"8443"⟩ { host := b!"example.com", port := b!"8080" } = false ∧
+    AutoHTTPSSpec.qualifies ⟨b!"8080", b!"8443"⟩ { host := b!"example.com", port := b!"80" } = true := by decide
 
-/-- The judged predicate of stream c15.qualify: the model's answer always gets the verdict "ok" (all inputs; outside the
+/-- The judged predicate of stream c15.qualify: the model's answer always gets the verdict "ok" (all inputs, all ports; outside the
 scope the verdict is "ok" by definition of the scope). -/
-theorem C15_qualify_model_verdict_ok (c : Site) (hm : c.managed = false) :
-    qualifyVerdict c (markOne c).managed = "ok" := by
+theorem C15_qualify_model_verdict_ok (P : Ports) (c : Site) (hm : c.managed = false) :
+    qualifyVerdict P c (markOneP P c).managed = "ok" := by
   unfold qualifyVerdict
   by_cases hs : (!hostInScope c.host || !bindInScope c.listen) = true
   · simp [hs]
   · simp only [hs, Bool.false_eq_true, ↓reduceIte]
     simp only [Bool.or_eq_true, Bool.not_eq_true', not_or, Bool.not_eq_false] at hs
-    rw [C15_managed_iff_qualifies c hs.1 hs.2 hm]
-    cases AutoHTTPSSpec.qualifies c <;> simp
+    rw [C15_managed_iff_qualifies P c hs.1 hs.2 hm]
+    cases AutoHTTPSSpec.qualifies P c <;> simp
 
-/-! ### plain-HTTP declarations and managed sites through the whole pipeline -/
+/-! ### plain-HTTP declarations and managed sites through the whole pipeline
+
+`P : Ports` = the configured HTTP / HTTPS ports; `P.ok` = both non-empty, different, and the HTTP port is not the default port 2015.
+The default ports satisfy it (`Ports.std_ok`). -/
 
 /-- The pipeline (mark, enable, make redirects, MakeServers) returns the declared sites, each taken through its own
 stages and in order, followed by the synthesised redirect sites (which MakeServers leaves unchanged). -/
-theorem C15_pipeline_shape (ds : List Site) :
-    pipeline ds = ds.map (fun d => stageF (stageE d)) ++ redirsGo (ds.map stageE) (ds.map stageE) 0 [] :=
-  pipeline_eq ds
+theorem C15_pipeline_shape (P : Ports) (hP : P.ok) (ds : List Site) :
+    pipelineP P ds = ds.map (fun d => stageF P (stageE P d)) ++ redirsGo P (ds.map (stageE P)) (ds.map (stageE P)) 0 [] :=
+  pipeline_eq hP ds
 
-/-- activateHTTPS cannot be run by the harness (between the stages it obtains certificates from a CA), so the ORDER in
-which it calls the stages is regenerated from its source: mark, (obtain), enable, make redirects — the order in which
-`pipeline` composes them; the redirect list is stored back; and activateHTTPS is the parsing callback of `tls`.
-(A syntactic tie: it pins the call sequence, not the data flow between the calls.) -/
+/-- The ORDER in which activateHTTPS calls the stages, regenerated from its source: mark, (obtain), enable, make redirects — the
+order in which `pipeline` composes them; the redirect list is stored back; activateHTTPS is the parsing callback of `tls`.
+(A syntactic tie; stream c15.activate additionally runs the real activateHTTPS.) -/
 theorem C15_stage_order :
     activateStages = ["markQualifiedForAutoHTTPS", "ObtainCertAsync", "enableAutoHTTPS", "makePlaintextRedirects", "RenewManagedCertificates"] ∧
     activateStoresRedirects = true ∧ "tls:activateHTTPS" ∈ parsingCallbacks ∧
-    (∀ ds, pipeline ds = makeServers (makePlaintextRedirects (enableAutoHTTPS (markQualified ds)))) := by
-  refine ⟨by decide, by decide, by decide, fun _ => rfl⟩
+    (∀ P ds, pipelineP P ds = makeServersP P (makePlaintextRedirectsP P (enableAutoHTTPSP P (markQualifiedP P ds)))) := by
+  refine ⟨by decide, by decide, by decide, fun _ _ => rfl⟩
 
-/-- Sites declared as plain HTTP (scheme http or port 80) are never marked managed and never have TLS enabled at the end
-of the pipeline — whatever the host, the bind value and the tls directive (which may have set Enabled). -/
-theorem C15_http_sites_never_tls (ds : List Site) (i : Nat) (d : Site) (hd : ds[i]? = some d) (hm : d.managed = false)
-    (hh : declaredHTTP d.scheme d.port = true) :
-    (markOne d).managed = false ∧ ((pipeline ds)[i]?).map (·.enabled) = some false := by
+/-- Sites declared as plain HTTP (scheme http, or on the configured HTTP port) are never marked managed and never have TLS
+enabled at the end of the pipeline — whatever the host, the bind value and the tls directive (which may have set Enabled). -/
+theorem C15_http_sites_never_tls (P : Ports) (hP : P.ok) (ds : List Site) (i : Nat) (d : Site) (hd : ds[i]? = some d)
+    (hm : d.managed = false) (hh : declaredHTTP P d.scheme d.port = true) :
+    (markOneP P d).managed = false ∧ ((pipelineP P ds)[i]?).map (·.enabled) = some false := by
   have h := http_site_no_tls d hm hh
   refine ⟨h.1, ?_⟩
   have hi : i < ds.length := by
     rcases Nat.lt_or_ge i ds.length with h | h
     · exact h
     · rw [List.getElem?_eq_none h] at hd; cases hd
-  rw [pipeline_eq, List.getElem?_append_left (by simpa using hi), List.getElem?_map, hd]
+  rw [pipeline_eq hP, List.getElem?_append_left (by simpa using hi), List.getElem?_map, hd]
   simp [h.2]
 
-example : declaredHTTP b!"http" b!"80" = true ∧ declaredHTTP b!"" b!"80" = true ∧ declaredHTTP b!"https" b!"443" = false := by decide
+example : declaredHTTP Ports.std b!"http" b!"80" = true ∧ declaredHTTP Ports.std b!"" b!"80" = true ∧
+    declaredHTTP Ports.std b!"https" b!"443" = false ∧ declaredHTTP ⟨b!"8080", b!"8443"⟩ b!"" b!"8080" = true ∧
+    Ports.ok ⟨b!"8080", b!"8443"⟩ := by
+  refine ⟨by decide, by decide, by decide, by decide, ⟨by decide, by decide, by decide, by decide⟩⟩
 
 /-- A site marked managed is served over TLS at the end of the pipeline. -/
-theorem C15_managed_sites_serve_tls (d : Site) (hf : Fresh d) (hm : (markOne d).managed = true) :
-    (stageF (stageE d)).enabled = true := managed_site_tls d hf hm
+theorem C15_managed_sites_serve_tls (P : Ports) (hP : P.ok) (d : Site) (hf : Fresh d) (hm : (markOneP P d).managed = true) :
+    (stageF P (stageE P d)).enabled = true := managed_site_tls hP d hf hm
 
 example : Fresh { host := b!"example.com" } ∧ (markOne { host := b!"example.com" }).managed = true := by
   refine ⟨⟨rfl, rfl, rfl, by decide⟩, by decide⟩
 
-/-! ### redirect synthesis (makePlaintextRedirects), for every list of sites -/
+/-! ### redirect synthesis (makePlaintextRedirects), for every list of sites and every pair of configured ports -/
 
 /-- SOUNDNESS: every synthesised site is `redirPlaintextHost c` of a declared site `c` that has TLS on, no_redirect off and is
 not declared as plain HTTP (so no redirect ever points back at an HTTP address), and no declared site of that host sits on
 the HTTP port (a declared plaintext site is never shadowed). -/
-theorem C15_redirect_sites_sound (e : List Site) (r : Site) (hr : r ∈ redirsGo e e 0 []) :
-    ∃ (k : Nat) (c : Site), e[k]? = some c ∧ wantsRedirect c = true ∧ r = redirPlaintextHost c ∧ NoPlain e c.host := by
-  obtain ⟨k, c, _, h1, h2, h3, h4⟩ := (inv_final e).sound r hr
+theorem C15_redirect_sites_sound (P : Ports) (hP : P.ok) (e : List Site) (r : Site) (hr : r ∈ redirsGo P e e 0 []) :
+    ∃ (k : Nat) (c : Site), e[k]? = some c ∧ wantsRedirectP P c = true ∧ r = redirPlaintextHostP P c ∧ NoPlain P e c.host := by
+  obtain ⟨k, c, _, h1, h2, h3, h4⟩ := (inv_final hP e).sound r hr
   exact ⟨k, c, h1, h2, h3, h4⟩
 
 /-- NO REDIRECT POINTS BACK AT AN HTTP ADDRESS: the site a synthesised redirect goes to ends the pipeline with TLS on, and it was
 not declared with scheme http or on the HTTP port. -/
-theorem C15_redirect_never_to_http (e : List Site) (r : Site) (hr : r ∈ redirsGo e e 0 []) :
-    ∃ c ∈ e, r = redirPlaintextHost c ∧ (stageF c).enabled = true ∧ c.scheme ≠ b!"http" ∧ c.port ≠ b!"80" := by
-  obtain ⟨k, c, hk, hw, hrc, _⟩ := C15_redirect_sites_sound e r hr
+theorem C15_redirect_never_to_http (P : Ports) (hP : P.ok) (e : List Site) (r : Site) (hr : r ∈ redirsGo P e e 0 []) :
+    ∃ c ∈ e, r = redirPlaintextHostP P c ∧ (stageF P c).enabled = true ∧ c.scheme ≠ b!"http" ∧ c.port ≠ P.http := by
+  obtain ⟨k, c, hk, hw, hrc, _⟩ := C15_redirect_sites_sound P hP e r hr
   refine ⟨c, List.mem_of_getElem? hk, hrc, ?_⟩
   have hw' := hw
-  unfold wantsRedirect at hw'
-  rw [tables_ports.1] at hw'
+  unfold wantsRedirectP at hw'
   simp only [Bool.and_eq_true, bne_iff_ne, ne_eq] at hw'
   refine ⟨?_, hw'.1.2, hw'.2⟩
-  rw [stageF_enabled, tables_ports.1]
+  rw [stageF_enabled]
   simp [hw'.1.1.1, hw'.1.2, hw'.2]
 
 /-- At most one redirect site per host. -/
-theorem C15_redirect_sites_one_per_host (e : List Site) : ((redirsGo e e 0 []).map (·.host)).Nodup :=
-  (inv_final e).nodup
+theorem C15_redirect_sites_one_per_host (P : Ports) (hP : P.ok) (e : List Site) : ((redirsGo P e e 0 []).map (·.host)).Nodup :=
+  (inv_final hP e).nodup
 
-/-- The redirect of the site synthesised for `c` goes to the port `c` is finally served on — its explicit port, else 443 for
-managed / on-demand certificates, else the default port — and that port is written empty exactly when it is 443. -/
-theorem C15_redirect_target_port (c : Site) (hman : c.hasManager = true) (hw : wantsRedirect c = true) :
-    ∃ t, (redirPlaintextHost c).redir = some t ∧ portSuffixOK t (stageF c).port = true ∧ (stageF c).enabled = true := by
-  obtain ⟨t, h1, h2⟩ := redirect_target_port c hman hw
+/-- The redirect of the site synthesised for `c` goes to the port `c` is finally served on — its explicit port, else the HTTPS
+port for managed / on-demand certificates, else the default port — and that port is written empty exactly when it is the
+(configured) HTTPS port. -/
+theorem C15_redirect_target_port (P : Ports) (hP : P.ok) (c : Site) (hman : c.hasManager = true) (hw : wantsRedirectP P c = true) :
+    ∃ t, (redirPlaintextHostP P c).redir = some t ∧ portSuffixOK P t (stageF P c).port = true ∧ (stageF P c).enabled = true := by
+  obtain ⟨t, h1, h2⟩ := redirect_target_port hP c hman hw
   refine ⟨t, h1, h2, ?_⟩
   rw [stageF_enabled]
-  unfold wantsRedirect at hw
+  unfold wantsRedirectP at hw
   simp only [Bool.and_eq_true, bne_iff_ne, ne_eq] at hw
   simp [hw.1.1.1, hw.1.2, hw.2]
 
@@ -180,13 +189,13 @@ example : wantsRedirect { host := b!"example.com", enabled := true, manual := tr
 /-- COMPLETENESS: every HTTPS site that wants a redirect (TLS on, no_redirect off, not declared as plain HTTP) and whose host
 has no declared site on the HTTP port is covered by a synthesised site of its host.  (Total since the repair
 "fix: a site on the HTTPS port suppresses its siblings' redirect only if it makes one itself".) -/
-theorem C15_redirect_complete (e : List Site) (k : Nat) (c : Site) (hk : e[k]? = some c)
-    (hw : wantsRedirect c = true) (hnp : NoPlain e c.host) : Covered (redirsGo e e 0 []) c.host := by
+theorem C15_redirect_complete (P : Ports) (hP : P.ok) (e : List Site) (k : Nat) (c : Site) (hk : e[k]? = some c)
+    (hw : wantsRedirectP P c = true) (hnp : NoPlain P e c.host) : Covered (redirsGo P e e 0 []) c.host := by
   have hlt : k < e.length := by
     rcases Nat.lt_or_ge k e.length with h | h
     · exact h
     · rw [List.getElem?_eq_none h] at hk; cases hk
-  rcases (inv_final e).complete k c hlt hk hw hnp with h | ⟨j, cj, hj, hcj, _⟩
+  rcases (inv_final hP e).complete k c hlt hk hw hnp with h | ⟨j, cj, hj, hcj, _⟩
   · exact h
   · rw [List.getElem?_eq_none hj] at hcj; cases hcj
 
@@ -200,13 +209,13 @@ theorem C15_redirect_443_sibling_regression :
     makePlaintextRedirects witnessSites = witnessSites ++ [redirPlaintextHost { host := b!"a", port := b!"5001", enabled := true }] ∧
     (redirPlaintextHost { host := b!"a", port := b!"5001", enabled := true }).redir = some b!"5001" := by decide
 
-/-- THE SITE-SET VERDICT (stream c15.sites): applied to what the model pipeline shows, the judged predicate
-`sitesVerdict` — managed ⇔ qualifies, managed ⇒ TLS, plain HTTP ⇒ no TLS, every synthesised site a plain port-80 site for a host
-without plaintext site whose redirect goes to an HTTPS site of that host on the right port, one per host, every HTTPS site
-covered — answers "ok".  For all lists of fresh sites. -/
-theorem C15_sites_model_verdict_ok (ds : List Site) (hf : ∀ d ∈ ds, Fresh d) :
-    sitesVerdict (ds.map observeSite) ((redirsGo (ds.map stageE) (ds.map stageE) 0 []).map observeRedirect) = "ok" :=
-  sites_verdict ds hf
+/-- THE SITE-SET VERDICT (streams c15.sites, c15.activate): applied to what the model pipeline shows, the judged predicate
+`sitesVerdict` — managed ⇔ qualifies, managed ⇒ TLS, plain HTTP ⇒ no TLS, every synthesised site a plain site on the HTTP port for a
+host without plaintext site whose redirect goes to an HTTPS site of that host on the right port, one per host, every HTTPS site
+covered — answers "ok".  For all lists of fresh sites and all configured ports. -/
+theorem C15_sites_model_verdict_ok (P : Ports) (hP : P.ok) (ds : List Site) (hf : ∀ d ∈ ds, Fresh d) :
+    sitesVerdict P (ds.map (observeSite P)) ((redirsGo P (ds.map (stageE P)) (ds.map (stageE P)) 0 []).map observeRedirect) = "ok" :=
+  sites_verdict hP ds hf
 
 /-- Sites built the way the harness and the Casketfile front end build them are fresh. -/
 theorem C15_siteOf_fresh (a : Address) (bind : Bytes) (v : TLSVariant) : Fresh (siteOf a bind v) := by
@@ -220,10 +229,11 @@ theorem C15_escape_roundtrip (p : Bytes) : unescapePath (escapePath p) = some p 
 
 /-- THE REDIRECT ANSWER (stream c15.redirect): for every port of the HTTPS site, every Host header in scope and every request
 target net/http can parse (origin-form or "*"), the handler answers 301 with
-Location = https://<same host, IPv6 literal in brackets>[:port unless 443]<same path (equal after %-decoding) and query>. -/
-theorem C15_redirect_location (port hdr target uri : Bytes) (hu : requestURI target = .ok uri) :
-    redirectVerdict port hdr target redirStatus (redirLocation (capturedPort port) hdr uri) = "ok" :=
-  redirect_verdict_ok port hdr target uri hu
+Location = https://<same host, IPv6 literal in brackets>[:port unless it is the HTTPS port]<same path (equal after %-decoding) and query>;
+for every configured HTTPS port. -/
+theorem C15_redirect_location (P : Ports) (port hdr target uri : Bytes) (hu : requestURI target = .ok uri) :
+    redirectVerdict P port hdr target redirStatus (redirLocation (capturedPortP P port) hdr uri) = "ok" :=
+  redirect_verdict_ok P port hdr target uri hu
 
 example : hostHeaderInScope b!"[::1]:80" = true ∧ requestURI b!"/a%2Fb?x=1" = .ok b!"/a%2Fb?x=1" ∧
     redirLocation (capturedPort b!"8443") b!"[::1]:80" b!"/a%2Fb?x=1" = b!"https://[::1]:8443/a%2Fb?x=1" ∧
@@ -235,17 +245,35 @@ theorem C15_probe_roundtrip (rp : Bytes) (hd : rp.all isDigit = true) :
     probeTarget (redirLocation rp probeHost probeURI) = some rp := probe_roundtrip rp hd
 
 /-- The port captured for a site (default flags) is what `redirPlaintextHost` stores. -/
-theorem C15_captured_port (p : Bytes) : (redirPlaintextHost { port := p }).redir = some (capturedPort p) := by
-  unfold redirPlaintextHost; simp
+theorem C15_captured_port (P : Ports) (p : Bytes) : (redirPlaintextHostP P { port := p }).redir = some (capturedPortP P p) := by
+  unfold redirPlaintextHostP; simp
 
 /-! ### site addresses: the scheme/port table, and the specification's reader -/
 
 /-- THE SCHEME/PORT TABLE of standardizeAddress, for every well-formed `[scheme://]name[:port]` (scheme: letters in any case;
 name: letters, digits, `- . _ *`; port: digits): the text survives the `:http`/`:https` replacement and the `//` normalisation,
-net/url.Parse splits it as expected, and the result is — port: the written one, else 80/443 for http/https, else none;
-`http`+443 and `https`+80 are refused; scheme: the written one (lower-cased), else http/https for port 80/443. -/
-theorem C15_standardize_table (a : AddrParts) (hok : a.ok) : standardizeAddress (composeAddr a) = expectedAddr a :=
+net/url.Parse splits it as expected, and the result is — port: the written one, else the configured HTTP/HTTPS port for http/https,
+else none; `http` on the HTTPS port and `https` on the HTTP port are refused; scheme: the written one (lower-cased), else http/https
+for the configured HTTP/HTTPS port.  For all configured ports. -/
+theorem C15_standardize_table (P : Ports) (a : AddrParts) (hok : a.ok) :
+    standardizeAddressP P (composeAddr a) = expectedAddrP P a := standardize_composeP P a hok
+
+/-- the same at the default ports, in the form first proved (`standardizeAddress` = `standardizeAddressP Ports.std`) -/
+theorem C15_standardize_table_std (a : AddrParts) (hok : a.ok) : standardizeAddress (composeAddr a) = expectedAddr a :=
   standardize_compose a hok
+
+/-- With the configured ports moved, a scheme-less address on the HTTP port IS an http address and one on the HTTPS port an https
+address (the point of the seeded regression C15-scheme-inference-default-ports), and the judge's reader of stream c15.addr says
+the same for every well-formed address (which is in the judge's scope). -/
+theorem C15_scheme_follows_configured_ports (P : Ports) (a : AddrParts) (hok : a.ok) (r : Address)
+    (h : standardizeAddressP P (composeAddr a) = .ok r) :
+    (r.normalize.scheme, r.normalize.host, r.normalize.port) = readAddrP P (composeAddr a) ∧ wellFormedAddr (composeAddr a) = true :=
+  ⟨reader_agreesP P a hok r h, wellFormed_compose a hok⟩
+
+example : (standardizeAddressP ⟨b!"8080", b!"8443"⟩ b!"example.com:8080").toOption.map (fun r => (r.scheme, r.port)) = some (b!"http", b!"8080") ∧
+    (standardizeAddressP ⟨b!"8080", b!"8443"⟩ b!"example.com:80").toOption.map (fun r => (r.scheme, r.port)) = some (b!"", b!"80") ∧
+    (standardizeAddressP ⟨b!"8080", b!"8443"⟩ b!"https://example.com").toOption.map (·.port) = some b!"8443" ∧
+    (standardizeAddressP ⟨b!"8080", b!"8443"⟩ b!"https://example.com:8080").toOption.isNone = true := by decide
 
 example : AddrParts.ok { scheme := b!"HTTP", host := b!"Example.COM", port := some b!"8080" } := by
   refine ⟨by decide, by decide, ?_⟩
@@ -412,8 +440,8 @@ theorem C15_denotes_is_effective (a : AddrParts) (hok : a.ok) :
 
 /-- THE SCHEME/PORT TABLE for `[scheme://][v6][:port]`, any IPv6 notation net.ParseIP accepts (compressed or not, upper or lower
 case, embedded IPv4; no zone), with and without port: same table as for names, the host is the literal without brackets. -/
-theorem C15_standardize_table_ipv6 (a : V6Parts) (hok : a.ok) : standardizeAddress (composeAddr6 a) = expectedAddr6 a :=
-  standardize_compose6 a hok
+theorem C15_standardize_table_ipv6 (P : Ports) (a : V6Parts) (hok : a.ok) :
+    standardizeAddressP P (composeAddr6 a) = expectedAddr6P P a := standardize_compose6P P a hok
 
 example : V6Parts.ok { scheme := b!"https", v6 := b!"2001:DB8::1", port := some b!"8443" } ∧ V6Parts.ok { v6 := b!"::ffff:10.0.0.1" } := by
   refine ⟨⟨by decide, by decide, by decide, ?_⟩, ⟨by decide, by decide, by decide, ?_⟩⟩
